@@ -382,3 +382,71 @@ func H_C14_json() {
 	vfNote(out)
 	vfAssert(out == cases[c][1], "json / writeJson produce encoding/json's rendering")
 }
+
+// H_C14_generated (thorough): pipelines of 1..3 stages generated from the grammar of call
+// forms - each stage one of six callees (Go functions of arity 1, 2, 3, a variadic one, a
+// value method, a jet.Func) in one of its surface forms (bare, prefix colon with the
+// remaining arguments, parenthesised with the piped value implicit first, parenthesised
+// with the slot at each argument position) - together with the nested plain call it stands
+// for, built alongside: both render the same for symbolic 1-byte argument strings.
+//
+//gosym:reach rendered
+//gosym:thorough-only
+//gosym:opts maxpaths=400000 wall=1500
+func H_C14_generated() {
+	type callee struct {
+		name  string
+		arity int // number of arguments including the piped one; 0 = variadic (1..3 used)
+	}
+	callees := []callee{{"h", 1}, {"g", 2}, {"f", 3}, {"v", 0}, {"r.M", 2}, {"j", 0}}
+	extras := []string{"a", "b"}
+	n := 1 + ndChoice("stages", 3)
+	ncallees := len(callees)
+	piped, plain := "x", "x"
+	for s := 0; s < n; s++ {
+		tag := "s" + ndItoa(s)
+		c := callees[ndChoice(tag+".callee", ncallees)]
+		ar := c.arity
+		if ar == 0 {
+			ar = 1 + ndChoice(tag+".nargs", 3)
+		}
+		// argument list of the plain call with the piped value at position pos
+		form := ndChoice(tag+".form", 3) // 0 colon / bare, 1 parenthesised implicit, 2 slot
+		pos := 0
+		if form == 2 {
+			pos = ndChoice(tag+".slot", ar)
+		}
+		var plainArgs, surfArgs []string
+		e := 0
+		for k := 0; k < ar; k++ {
+			if k == pos {
+				plainArgs = append(plainArgs, plain)
+				if form == 2 {
+					surfArgs = append(surfArgs, "_")
+				}
+				continue
+			}
+			plainArgs = append(plainArgs, extras[e%2])
+			surfArgs = append(surfArgs, extras[e%2])
+			e++
+		}
+		plain = c.name + "(" + strings.Join(plainArgs, ", ") + ")"
+		switch {
+		case form == 0 && len(surfArgs) == 0:
+			piped += " | " + c.name
+		case form == 0:
+			piped += " | " + c.name + ": " + strings.Join(surfArgs, ", ")
+		default:
+			piped += " | " + c.name + "(" + strings.Join(surfArgs, ", ") + ")"
+		}
+	}
+	x, a, b := ndString("x", 1), ndString("a", 1), ndString("b", 1)
+	set := hxSet([]Option{WithSafeWriter(nil)}, "/s.jet", "{{ "+piped+" }}", "/p.jet", "{{ "+plain+" }}")
+	o1, e1 := hxExec(set, "/s.jet", c14Vars(x, a, b), nil)
+	o2, e2 := hxExec(set, "/p.jet", c14Vars(x, a, b), nil)
+	vfReach("rendered")
+	vfNote(piped)
+	vfAssert(e1 == nil && e2 == nil, "both forms evaluate")
+	vfNote(o1)
+	vfAssert(o1 == o2, "the surface form is equivalent to the plain call")
+}
